@@ -22,12 +22,14 @@ class Domain:
 
     def __init__(self):
         self.complaints = []   # (rule, message, term)
+        self.complaint_terms = []   # the raw terms, parallel to complaints
         self.datadep = []
 
     origin = 'update'
 
     def complain(self, rule, msg, t):
         self.complaints.append((rule, msg + ' [in %s]' % self.origin, tstr(t)[:120]))
+        self.complaint_terms.append(t)
 
 
 class Degree(Domain):
